@@ -174,6 +174,10 @@ def name_failure(unit_name, dg, org, owner):
         name = f"{unit_name}/{fn_of(prim)}.pre({callee})@{origin_str(po)}"
         if po and po[0] == "spec":
             cls = "spec"
+        if po and po[0] == "clause" and po[2] in ("hint", "ghost"):
+            # a lemma call inside a sidecar proof block whose precondition fails: a proof aid, never a verdict
+            cls = "hint"
+            clause = po[1]
     elif kind in ("invariant-preserved", "invariant-established", "invariant"):
         if po and po[0] == "clause":
             clause = po[1]
@@ -219,7 +223,9 @@ def skeleton(u, repo):
         for c in it.clauses:
             if c["kind"] == "contract":
                 contracted.add(c["fn"])
-        for m in re.finditer(r"(?:\.|::|\b)(\w+)\s*\(", text):
+        # calls that resolve inside the extracted file: free calls `f(..)`, `Self::f(..)`, `self.f(..)`;
+        # `x.y.f(..)` on another receiver is a method of another type (glue / vstd must give it a spec or Verus rejects it)
+        for m in re.finditer(r"(?:(?<![\w.:])|\bSelf::|\bself\.)(\w+)\s*\(", text):
             if mask[m.start()]:
                 called.add(m.group(1))
     defined = set()
